@@ -41,6 +41,39 @@ Theorem C15_unguarded_rejected : forall tbl r1 r2,
 Proof. exact unguarded_write_rejected. Qed.
 Print Assumptions C15_unguarded_rejected.
 
+(* field-level publication is NOT object-level initialisation: a write that publishes a field of
+   an already shared object (class JPub tag) is accepted only next to object-level initialisations,
+   other sites of the publishing goroutine, the sites explicitly listed as ordered after it
+   (JAfter tag) and sites sharing a mutex with it. Any other site of the field - a plain,
+   unlisted access in particular - makes the checker reject the table *)
+Theorem C15_pub_unlisted_rejected : forall tbl r1 r2 tag,
+  In r1 tbl -> In r2 tbl -> r_field r1 = r_field r2 ->
+  r_write r1 = true -> r_class r1 = JPub tag ->
+  r_class r2 <> JInit -> r_class r2 <> JPub tag -> r_class r2 <> JAfter tag ->
+  share_lock r1 r2 = false ->
+  race_free_table tbl = false.
+Proof. exact pub_unlisted_rejected. Qed.
+Print Assumptions C15_pub_unlisted_rejected.
+
+(* what a JAfter justification has to establish (the last clause of conforms), in its two usual
+   forms: the accessing goroutine was started by a go statement that the publisher executed at or
+   after its publishing event p ... *)
+Theorem C15_after_by_go : forall tr p g i ep eg ei t0 t1,
+  (p <= g)%nat -> (g < i)%nat ->
+  nth_error tr p = Some ep -> nth_error tr g = Some eg -> nth_error tr i = Some ei ->
+  thread_of ep = t0 -> eg = Go t0 t1 -> thread_of ei = t1 -> hb tr p i.
+Proof. exact hb_go_child. Qed.
+Print Assumptions C15_after_by_go.
+
+(* ... or it accesses the field after receiving a message that the publisher sent at or after p *)
+Theorem C15_after_by_send : forall tr p s r i ep er ei t0 t1 c k,
+  (p <= s)%nat -> (s < r)%nat -> (r <= i)%nat ->
+  nth_error tr p = Some ep -> nth_error tr s = Some (Send t0 c k) -> nth_error tr r = Some er ->
+  nth_error tr i = Some ei ->
+  thread_of ep = t0 -> er = Recv t1 c k -> thread_of ei = t1 -> hb tr p i.
+Proof. exact hb_send_recv. Qed.
+Print Assumptions C15_after_by_send.
+
 (* happens-before never runs against the trace order *)
 Theorem C15_hb_forward : forall tr i j, hb tr i j -> (i < j)%nat.
 Proof. exact hb_lt. Qed.
@@ -68,3 +101,39 @@ Proof. vm_compute. reflexivity. Qed.
 (* a counter accessed atomically in one place and plainly in another: rejected *)
 Example C15_ex_mixed_atomic : race_free_table [mkRow 2 true 1 [] JAtomic; mkRow 2 true 2 [] JPlain] = false.
 Proof. vm_compute. reflexivity. Qed.
+
+(* ---------- field-level publication (the proxy's outgoing connection) ---------- *)
+(* goroutine 0 (Serve) creates object 5 (init of field 2), stores it in a shared table and starts
+   goroutine 1 (connect); 1 writes field 1 (conn: JPub 0) and then starts goroutine 2 (readLoop),
+   which reads it (JAfter 0) *)
+Definition ex_pub_table : table :=
+  [mkRow 2 true 100 [] JInit; mkRow 1 true 101 [] (JPub 0); mkRow 1 false 102 [] (JAfter 0)].
+Definition ex_pub_trace : trace :=
+  [Acc 0 (5, 2) true false; Go 0 1; Acc 1 (5, 1) true false; Go 1 2; Acc 2 (5, 1) false false].
+Example C15_ex_pub_table : race_free_table ex_pub_table = true.
+Proof. vm_compute. reflexivity. Qed.
+Example C15_ex_pub_ordered : hb ex_pub_trace 2 4.
+Proof. eapply (C15_after_by_go ex_pub_trace 2 3 4); try reflexivity; lia. Qed.
+(* the same field also read by a site that is not listed (goroutine 0, which found the object in
+   the shared table: function 103): rejected - with object-level JInit for the write it would
+   have been accepted *)
+Example C15_ex_pub_rejected : race_free_table (mkRow 1 false 103 [] JPlain :: ex_pub_table) = false.
+Proof. vm_compute. reflexivity. Qed.
+Example C15_ex_pub_as_init_accepted :
+  race_free_table [mkRow 1 false 103 [] JPlain; mkRow 1 true 101 [] JInit; mkRow 1 false 102 [] JPlain] = true.
+Proof. vm_compute. reflexivity. Qed.
+(* and rightly so: with that read the execution below has a data race (events 2 and 3) *)
+Definition ex_pub_bad : trace :=
+  [Acc 0 (5, 2) true false; Go 0 1; Acc 0 (5, 1) false false; Acc 1 (5, 1) true false; Go 1 2; Acc 2 (5, 1) false false].
+Example C15_ex_pub_race : race ex_pub_bad 2 3.
+Proof.
+  split.
+  - split; [lia|]. exists 0, 1, (5, 1), false, true, false, false. repeat split; try reflexivity. discriminate.
+  - assert (H : forall i j, hb ex_pub_bad i j -> i <> 2%nat).
+    { induction 1 as [i j e1 e2 Hij H1 H2 Ht | i j e1 e2 Hij H1 H2 Hs | i j k _ IH1 _ _]; [| |exact IH1].
+      - intros ->. cbn in H1. inversion H1; subst e1.
+        do 6 (destruct j as [|j]; [cbn in H2; try lia; inversion H2; subst e2; cbn in Ht; discriminate|]).
+        cbn in H2. destruct j; discriminate.
+      - intros ->. cbn in H1. inversion H1; subst e1. cbn in Hs. exact Hs. }
+    intro Hhb. exact (H _ _ Hhb eq_refl).
+Qed.
